@@ -1085,3 +1085,89 @@ func checkRowAlias(c *Ctx, r *Report) {
 		r.AnchorLost("W-ROWALIAS", "LuminanceSource.GetRow", "no implementation found")
 	}
 }
+
+// ---------------------------------------------------------------------------------------------------------------
+// M-HISTINIT: every histogram starts from zero
+// ---------------------------------------------------------------------------------------------------------------
+
+func checkHistogramInit(c *Ctx, r *Report) {
+	r.Rule("M-HISTINIT", "GlobalHistogramBinarizer keeps its 32 histogram buckets on the object: initArrays, folded on a receiver whose buckets are all non-zero, leaves every bucket zero (and a luminance buffer at least as long as asked), and GetBlackRow / GetBlackMatrix call it before the first bucket is counted - so a row's threshold never depends on rows seen before, whether or not an earlier call ended in an error", 3)
+	fd, p := c.funcDeclOf("", "GlobalHistogramBinarizer.initArrays")
+	key := "gozxing.GlobalHistogramBinarizer.initArrays"
+	if fd == nil {
+		r.AnchorLost("M-HISTINIT", key, "method not found")
+	} else {
+		r.Analysed(key)
+		bad := ""
+		nb, ok := constValIn(c, "", "LUMINANCE_BUCKETS")
+		if !ok || nb <= 0 || nb > 4096 {
+			bad = "?LUMINANCE_BUCKETS is not a constant"
+		}
+		for _, have := range []int64{0, 10, 50} {
+			if bad != "" {
+				break
+			}
+			buckets := &Val{K: VList, Local: true}
+			for i := int64(0); i < nb; i++ {
+				buckets.L = append(buckets.L, vint(7+i))
+			}
+			lum := &Val{K: VList, Local: true}
+			for i := int64(0); i < have; i++ {
+				lum.L = append(lum.L, vint(1))
+			}
+			recv := &Val{K: VStruct, Ptr: true, Local: true, Fields: map[string]*Val{"buckets": buckets, "luminances": lum}}
+			h := &rpf{unroll: 10000, env: map[types.Object]*Val{recvObj(p, fd): recv}}
+			if _, err := c.rpfCall(fd, p, []*Val{vint(30)}, h); err != nil {
+				bad = "?" + err.Error()
+				break
+			}
+			bs, okb := listInts(recv.Fields["buckets"])
+			if !okb || int64(len(bs)) != nb {
+				bad = "the buckets are not 32 counters after initArrays"
+				break
+			}
+			for i, v := range bs {
+				if v != 0 {
+					bad = fmt.Sprintf("bucket %d still holds %d after initArrays", i, v)
+					break
+				}
+			}
+			if l := recv.Fields["luminances"]; bad == "" && (l == nil || l.K != VList || len(l.L) < 30) {
+				bad = "the luminance buffer is shorter than the size asked for"
+			}
+		}
+		reportFold(r, c, "M-HISTINIT", key, fd.Pos(), bad)
+	}
+	for _, name := range []string{"GetBlackRow", "GetBlackMatrix"} {
+		fd, p := c.funcDeclOf("", "GlobalHistogramBinarizer."+name)
+		key := "gozxing.GlobalHistogramBinarizer." + name
+		if fd == nil {
+			r.AnchorLost("M-HISTINIT", key, "method not found")
+			continue
+		}
+		r.Analysed(key)
+		var initPos, firstCount token.Pos
+		ast.Inspect(fd.Body, func(n ast.Node) bool {
+			switch x := n.(type) {
+			case *ast.CallExpr:
+				if fn, ok := typeutil.Callee(p.TypesInfo, x).(*types.Func); ok && fn.Name() == "initArrays" && !initPos.IsValid() {
+					initPos = x.Pos()
+				}
+			case *ast.IncDecStmt:
+				if _, isIx := x.X.(*ast.IndexExpr); isIx && !firstCount.IsValid() {
+					firstCount = x.Pos()
+				}
+			}
+			return true
+		})
+		// the call must be at statement level of the body (not under a condition)
+		top := false
+		for _, st := range fd.Body.List {
+			if es, ok := st.(*ast.ExprStmt); ok && es.X.Pos() == initPos {
+				top = true
+			}
+		}
+		okOrder := initPos.IsValid() && top && (!firstCount.IsValid() || initPos < firstCount)
+		r.Check(okOrder, "M-HISTINIT", key, c.pos(fd.Pos()), "initArrays must be called unconditionally before the first bucket is counted")
+	}
+}
